@@ -994,6 +994,19 @@ func p1Mutations(b []byte, rederive bool) []p1Mutation {
 			}})
 		}
 	}
+	// pairs of data offset and data size whose sum wraps around 2^64 to the
+	// file size (or to the real end of the data)
+	{
+		flen := uint64(len(b))
+		for _, off := range []uint64{^uint64(0), ^uint64(0) - 7, 1<<63 + 8, ^uint64(0) - flen + 1, 1 << 63} {
+			off := off
+			ms = append(ms, p1Mutation{desc: fmt.Sprintf("data offset -> %d AND data size -> file size minus that (sum wraps to the file size)", off), apply: func(x []byte) []byte {
+				binary.LittleEndian.PutUint64(x[0x50:], off)
+				binary.LittleEndian.PutUint64(x[0x58:], uint64(len(x))-off)
+				return x
+			}})
+		}
+	}
 	ms = append(ms, p1Mutation{desc: "data area dropped", apply: func(x []byte) []byte {
 		do := int(binary.LittleEndian.Uint64(x[0x50:]))
 		if do <= len(x) && do >= 0x60 {
